@@ -2179,6 +2179,11 @@ class Interp:
         # side-effect free) but the result is a one-shot iterator, like a real generator
         return GenObj(iter(out))
 
+    def e_SetComp(self, e, fr):
+        out = []
+        self.comp(e.generators, 0, fr, lambda f2: out.append(self.eval(e.elt, f2)))
+        return PSet(self, out)
+
     def e_DictComp(self, e, fr):
         d = PDict(self)
         self.comp(e.generators, 0, fr, lambda f2: self.dict_setitem(d, self.eval(e.key, f2), self.eval(e.value, f2)))
